@@ -17,6 +17,11 @@ CLAIMED = {
     "C14": ("Exact <alg> theorems (support of every bound + idempotence), affineEq_oneRound; equality of model and implementation on the exhaustive small scope; brute-force hull", "§7 C14"),
 }
 CLAIMED.update({
+    "C02": ("C02_enumeration(_bc/_guarded): solveAll from the root returns L.map reported with L duplicate-free and exactly the solutions, with explicit fuel/height bounds; C02_strategy_independent: any two configurations and posting orders yield permutations of the same list; whole-run correspondence + brute force on the real solver", "§7 C02"),
+    "C03": ("C03_optimum(_bc/_guarded): optimize returns none iff infeasible, else a solution of optimal value, and terminates; correspondence of minimize/maximize incl. unwatched and shared-offset objectives; brute-force optimum", "§7 C03"),
+    "C10": ("C10_stack_unchanged, C10_le_bc, C10_keeps_solutions, C10_consOk_shaving (+ search corollaries): shaving leaves the stack as found, returns sub-domains of bound consistency's, never loses a solution; whole runs with shaving compared with the model and with plain BC", "§7 C10"),
+    "C13": ("C13_*: Sol/SolW/reported invariant under constraint permutation, init's sort, duplication, dummy, variable permutation, shared-domain renaming, unsharing, translation; metamorphic runs of the real solver on rewritten models", "§7 C13"),
+    "C15": ("PARTIAL: C15_deterministic, C15_init_twice/C15_reuse, C15_stableSort_stable, C15_registry_*; compiled vs interpreted vs model on every case, histories (registrations, abandoned generators, reused problem objects) in one process — tested, not proved", "§7 C15"),
     "C17": ("C17_pass_exact (ghost trace of executions = counters), C17_solveOne/C17_solveAll (SOLUTION, BC = CHOICE + BACKTRACK + 1), C17_depth; the 13 statistics of every whole run compared with the model's", "§7 C17"),
     "C18": ("C18_halts_within_two_polls, C18_safety, C18_message_clears_suspicion on the parent state machine with time-outs; real worker processes killed at three points under a deadline watchdog; PARTIAL: OS behaviour of is_alive()/get(timeout) is tested, not proved", "§7 C18"),
 })
